@@ -78,6 +78,7 @@ fn main() {
             "date" => s_date::run_date(&a[3]),
             "datecache" => s_date::run_cache(&a[3]),
             "dateresp" => s_date::run_resp(&a[3]),
+            "dateclock" => s_date::run_clock(&a[3]),
             "router" => s_router::run(&a[3]),
             "headers" => s_headers::run(&a[3]),
             "parse" => s_parse::run_parse(&a[3]),
@@ -112,6 +113,7 @@ fn main() {
         "date" => s_date::gen_date(&ctx),
         "datecache" => s_date::gen_cache(&ctx),
         "dateresp" => s_date::gen_resp(&ctx),
+        "dateclock" => s_date::gen_clock(&ctx),
         "router" => s_router::gen(&ctx),
         "headers" => s_headers::gen(&ctx),
         "parse" => s_parse::gen_parse(&ctx),
